@@ -15,6 +15,8 @@
 //   pool pickhold call=<id> picker=<n> ...   like pick, but the pick is stopped right before gcpBalancer.newSubConn
 //                                            if it gets there (=> held); the picker's mutex stays locked
 //   pool resume call=<id>                    let a stopped pick continue
+//   pool rrburst first=<id> n=<k> picker=<n> g=<goroutines>   k round-robin BIND picks issued concurrently on a pool whose
+//                                            channels are all READY, each completed with an error at once => burst=<picks per slot>
 //   pool pick call=<id> picker=<n> m=<method> ctx=gcp|gcpnoreply|none dl=<abs ns>|none req=<shape>
 //   pool ctxdone call=<id>                   cancel the context of a waiting round-robin BIND pick
 //   pool done call=<id> err=nil|other|declient|deserver reply=<key>/<k1,k2>
@@ -584,6 +586,8 @@ func (h *vPool) exec(line string) string {
 		}
 	case "pick2":
 		res = h.doPick2(a)
+	case "rrburst":
+		res = h.doRRBurst(a)
 	case "ctxdone":
 		id := atoi("call")
 		var c *vCall
@@ -631,6 +635,9 @@ func (h *vPool) exec(line string) string {
 		res = guarded(func() string { c.done(balancer.DoneInfo{Err: err}); return "ok" })
 	default:
 		return "bad-op"
+	}
+	if res == "bad-op" {
+		return "bad-op" // the operation does not apply here; nothing was called
 	}
 	if res == "PANIC" || res == "HANG" {
 		h.dead = true
@@ -802,6 +809,86 @@ func (h *vPool) doPick2(a map[string]string) string {
 	return strings.Join(out, " ; ")
 }
 
+// doRRBurst issues n round-robin BIND picks from g goroutines at the same time. Every channel is
+// READY, so no pick waits; each call is completed with an error right away (no binding). What counts
+// is how many picks each channel got: the cursor must be advanced atomically.
+func (h *vPool) doRRBurst(a map[string]string) string {
+	n, _ := strconv.Atoi(a["n"])
+	g, _ := strconv.Atoi(a["g"])
+	pn, _ := strconv.Atoi(a["picker"])
+	if pn < 0 || pn >= len(h.cc.pubs) || n <= 0 || g <= 0 || h.pickerBusy(pn) || len(h.waiting) > 0 {
+		return "bad-op"
+	}
+	gp, ok := h.cc.pubs[pn].picker.(*gcpPicker)
+	if !ok || len(gp.scRefs) == 0 || h.cfgKind != "given" ||
+		h.gb.cfg.GetChannelPool().GetBindPickStrategy() != pb.ChannelPoolConfig_ROUND_ROBIN || len(h.gb.scRefList) == 0 {
+		return "bad-op"
+	}
+	for _, ref := range h.gb.scRefList {
+		if h.gb.scStates[ref.subConn] != connectivity.Ready {
+			return "bad-op"
+		}
+	}
+	counts := make([]int64, len(h.gb.scRefList))
+	slotBySc := map[balancer.SubConn]int{}
+	for i, ref := range h.gb.scRefList {
+		slotBySc[ref.subConn] = i
+	}
+	var wg sync.WaitGroup
+	var bad int32
+	per := (n + g - 1) / g
+	left := n
+	for w := 0; w < g && left > 0; w++ {
+		k := per
+		if k > left {
+			k = left
+		}
+		left -= k
+		wg.Add(1)
+		go func(k int) {
+			defer wg.Done()
+			defer func() {
+				if r := recover(); r != nil {
+					atomic.StoreInt32(&bad, 2)
+				}
+			}()
+			for i := 0; i < k; i++ {
+				ctx := context.WithValue(context.Background(), gcpKey, &gcpContext{reqMsg: mkReq("/"), replyMsg: &vMsg{}})
+				r, err := gp.Pick(balancer.PickInfo{FullMethodName: "bind", Ctx: ctx})
+				if err != nil {
+					atomic.CompareAndSwapInt32(&bad, 0, 1)
+					continue
+				}
+				if sl, ok := slotBySc[r.SubConn]; ok {
+					atomic.AddInt64(&counts[sl], 1)
+				} else {
+					atomic.CompareAndSwapInt32(&bad, 0, 1)
+				}
+				r.Done(balancer.DoneInfo{Err: status.Error(codes.Unavailable, "unavailable")})
+			}
+		}(k)
+	}
+	done := make(chan struct{})
+	go func() { wg.Wait(); close(done) }()
+	select {
+	case <-done:
+	case <-time.After(5 * time.Second):
+		return "HANG"
+	}
+	if atomic.LoadInt32(&bad) == 2 {
+		return "PANIC"
+	}
+	cs := []string{}
+	for i := range counts {
+		cs = append(cs, strconv.FormatInt(atomic.LoadInt64(&counts[i]), 10))
+	}
+	out := "burst=" + strings.Join(cs, ".")
+	if atomic.LoadInt32(&bad) == 1 {
+		out += " ; noplace"
+	}
+	return out + " ; ok"
+}
+
 func (h *vPool) reset(a map[string]string) {
 	atoi := func(k string) uint32 { n, _ := strconv.Atoi(a[k]); return uint32(n) }
 	// release goroutines of the previous episode
@@ -919,7 +1006,15 @@ func (g *vGen) cfgLine() string {
 			max = min
 		}
 		g.ums = ums
-		g.scenarioFallbackRefresh()
+		if r.Intn(3) == 0 {
+			if min < 3 {
+				min, max = 3, 3+r.Intn(2)
+			}
+			uc, ums = 0, 0
+			g.scenarioFallbackRebind()
+		} else {
+			g.scenarioFallbackRefresh()
+		}
 	}
 	if (g.profile == "growth" || g.profile == "load") && r.Intn(2) == 0 && verifHookInstalled && cfg == "given" {
 		min, max, wm, rr = 1, 2+r.Intn(2), 1+r.Intn(2), 0
@@ -1222,6 +1317,67 @@ func (g *vGen) scenarioFallbackRefresh() {
 	}
 }
 
+// scenarioFallbackRebind: a key is bound, its channel goes down, calls (among them the UNBIND) are
+// served by a stand-in, the key is bound again — to another channel that is READY — and looked up:
+// whatever was remembered about the stand-in must not override the new binding.
+func (g *vGen) scenarioFallbackRebind() {
+	r, h := g.rng, g.h
+	add := func(f func() string) { g.script = append(g.script, f) }
+	cur := func() int { return len(h.cc.pubs) - 1 }
+	call := func() int { g.nextCall++; return g.nextCall }
+	pick := func(m, req string, id *int) func() string {
+		return func() string {
+			if cur() < 0 {
+				return ""
+			}
+			*id = call()
+			return fmt.Sprintf("pool pick call=%d picker=%d m=%s ctx=gcp dl=none req=%s", *id, cur(), m, req)
+		}
+	}
+	done := func(id *int, reply string) func() string {
+		return func() string {
+			if _, ok := h.calls[*id]; !ok {
+				return ""
+			}
+			return fmt.Sprintf("pool done call=%d err=nil reply=%s", *id, reply)
+		}
+	}
+	add(func() string { return "pool ccs addrs=1" })
+	for i := 0; i < 4; i++ {
+		sc := i
+		add(func() string {
+			if sc >= h.cc.nextSc {
+				return ""
+			}
+			return fmt.Sprintf("pool scs sc=%d st=READY", sc)
+		})
+	}
+	var b1, q1, u1, filler, b2, q2 int
+	add(pick("bind", "/", &b1))
+	add(done(&b1, "k1/"))
+	add(func() string {
+		if sc, ok := h.gb.affinityMap["k1"]; ok {
+			return fmt.Sprintf("pool scs sc=%s st=%s", scID(sc), []string{"TF", "CONNECTING", "IDLE"}[r.Intn(3)])
+		}
+		return ""
+	})
+	add(pick("bound", "k1/", &q1)) // served by a stand-in
+	add(pick("unbind", "k1/", &u1))
+	add(done(&u1, "/"))
+	if r.Intn(2) == 0 {
+		add(done(&q1, "/"))
+	}
+	// keep the old stand-in busier than some other READY channel so that the next BIND lands elsewhere
+	add(pick("plain", "/", &filler))
+	add(pick("bind", "/", &b2))
+	add(done(&b2, "k1/"))
+	add(pick("bound", "k1/", &q2))
+	if r.Intn(2) == 0 {
+		add(func() string { return "pool scs sc=0 st=READY" })
+		add(pick("bound", "k1/", &q2))
+	}
+}
+
 func (g *vGen) knownSc() int {
 	h := g.h
 	n := h.cc.nextSc
@@ -1436,6 +1592,25 @@ func (g *vGen) next(i int) string {
 	}
 	if i <= 3 && r.Intn(3) != 0 {
 		return fmt.Sprintf("pool scs sc=%d st=READY", g.knownSc())
+	}
+	if g.rrOn && len(h.cc.pubs) > 0 && len(h.waiting) == 0 && r.Intn(12) == 0 {
+		allReady := len(h.gb.scRefList) > 0
+		for _, ref := range h.gb.scRefList {
+			if h.gb.scStates[ref.subConn] != connectivity.Ready {
+				allReady = false
+			}
+		}
+		pn := len(h.cc.pubs) - 1
+		if _, ok := h.cc.pubs[pn].picker.(*gcpPicker); ok && allReady && !h.pickerBusy(pn) {
+			n := 40 + r.Intn(400)
+			gs := 2 + r.Intn(6)
+			if r.Intn(10) == 0 { // a long burst: a lost cursor update needs two picks inside a few instructions
+				n, gs = 3000+r.Intn(6000), 8+r.Intn(8)
+			}
+			first := g.nextCall + 1
+			g.nextCall += n
+			return fmt.Sprintf("pool rrburst first=%d n=%d picker=%d g=%d", first, n, pn, gs)
+		}
 	}
 	if len(h.held) > 0 && r.Intn(5) == 0 {
 		ids := []int{}
